@@ -328,6 +328,14 @@ class LazyEvaluatedKernelTensor(LinearOperator):
         return expected_size
 
     @recall_grad_state
+    def _permute_batch(self, *dims):
+        # Only the inputs could follow a permutation of the batch dimensions lazily; a kernel with batch dimensions of its own
+        # (batched hyperparameters) has to be evaluated first
+        if len(self.kernel.batch_shape):
+            return self.evaluate_kernel()._permute_batch(*dims)
+        return super()._permute_batch(*dims)
+
+    @recall_grad_state
     def _transpose_nonbatch(self):
         return self.__class__(
             self.x2,
